@@ -5,7 +5,7 @@ patch="$1"; shift
 WT=/tmp/seedwt.$$; VS=/tmp/seedvs.$$
 git -C /repo worktree add -q --detach "$WT" HEAD || exit 2
 git -C "$WT" apply "$patch" 2>/dev/null || git -C "$WT" apply --3way "$patch" || { echo "PATCH DOES NOT APPLY"; git -C /repo worktree remove --force "$WT"; exit 2; }
-rsync -a --exclude .git --exclude replays --exclude 'coq/run' /verif/ "$VS"/
+rsync -a --exclude .git --exclude replays --exclude "coq/run" "${VERIF_SRC:-/verif}"/ "$VS"/
 rc=0
 for id in "$@"; do
   echo "=== $id with $(basename "$patch")"
